@@ -57,8 +57,13 @@ def run(chk, replay=None):
             b = list(a)
             idxs = list(range(NB))
             rng.shuffle(idxs)
+            # every other evaluation leaves some pairs alone: events there have a difference of exactly zero (equal to the
+            # null median), which the signed-rank statistic must leave out altogether
+            partial = (t % 2 == 0)
             for q in range(0, NB - 1, 2):
                 i, j = idxs[q], idxs[q + 1]
+                if partial and rng.random() < 0.4:
+                    continue
                 b[i], b[j] = a[j], a[i]
         elif style == 'wide':
             a = [10 ** rng.uniform(-9, 1) for _ in range(NB)]
@@ -119,6 +124,8 @@ def run(chk, replay=None):
         mirror_ok = (n1 == n2)        # null median exactly 0: (a, b) and (b, a) give exactly opposite differences
         for j, x in zip(ev_bins, d):
             pair = (float(da[j - 1]), float(db[j - 1]))
+            if mirror_ok and pair[0] == pair[1]:
+                continue          # equal rates and a null median of exactly 0: the difference is exactly 0 in floats too
             key = frozenset(pair) if mirror_ok and pair[0] != pair[1] else pair
             groups.setdefault(key, abs(x))
         gv = sorted(groups.values())
